@@ -383,6 +383,57 @@ Section Wallet.
     | o :: r => op_caller_ok w o /\ caller_ok (fst (step w o)) r
     end.
 
+  (** *** several wallets open in one process.
+      Each ClientImpl owns its WalletData, and NewWalletData gives each WalletData its OWN
+      ScryptParam object (keypair.GetScryptParameters() allocates; Load decodes the file's "scrypt"
+      block into that object): nothing is shared between clients, so the process is a list of
+      independent (wallet, specification state) pairs, numbered in the order they were opened. *)
+  Definition system := list (wallet * ghost).
+  Inductive mop :=
+  | MOpen (prm : scrypt)        (* open a wallet file that has no accounts and carries these parameters *)
+  | MOp (i : nat) (o : op).     (* operation [o] on the i-th open wallet *)
+
+  Fixpoint set_nth {A : Type} (l : list A) (i : nat) (x : A) : list A :=
+    match l, i with
+    | [], _ => []
+    | _ :: r, O => x :: r
+    | y :: r, S n => y :: set_nth r n x
+    end.
+
+  Definition mstep (s : system) (m : mop) : system * res :=
+    match m with
+    | MOpen prm => ((s ++ [(init prm, [])])%list, ROk)
+    | MOp i o =>
+      match nth_error s i with
+      | None => (s, RNil)     (* no such wallet: the driver never does this *)
+      | Some (w, g) => let (w', e) := step w o in (set_nth s i (w', gstep g o e), e)
+      end
+    end.
+
+  Fixpoint mrun (s : system) (ms : list mop) : system * list res :=
+    match ms with
+    | [] => (s, [])
+    | m :: r => let (s', e) := mstep s m in let (s'', es) := mrun s' r in (s'', e :: es)
+    end.
+
+  Definition mop_caller_ok (s : system) (m : mop) : Prop :=
+    match m with
+    | MOpen _ => True
+    | MOp i o => match nth_error s i with Some (w, _) => op_caller_ok w o | None => True end
+    end.
+  Fixpoint mcaller_ok (s : system) (ms : list mop) : Prop :=
+    match ms with
+    | [] => True
+    | m :: r => mop_caller_ok s m /\ mcaller_ok (fst (mstep s m)) r
+    end.
+  (** the parameters the wallets were opened with, in order *)
+  Fixpoint opened (ms : list mop) : list scrypt :=
+    match ms with
+    | [] => []
+    | MOpen prm :: r => prm :: opened r
+    | MOp _ _ :: r => opened r
+    end.
+
   (** *** what a client can see *)
   (** the wallet shows the same thing through every getter *)
   Definition same_view (w w' : wallet) : Prop :=
